@@ -65,12 +65,13 @@ func (p *progress) wait(wg *sync.WaitGroup) bool {
 }
 
 func runHammer(wl Workload) Stress {
+	boxed = wl.Box
 	r := vh.NewRand(wl.Seed)
 	t := &ctree.Tree{}
 	p := leafPaths[r.Intn(len(leafPaths))]
-	t.Add(p, int64(0))
+	t.Add(p, mkval(0))
 	// a second leaf next to it so that the parent is a real branch
-	t.Add([]string{"zz"}, int64(7))
+	t.Add([]string{"zz"}, mkval(7))
 	leaf := t.GetLeaf(p)
 	n := wl.Windows // operations per goroutine
 	readers := 2 + r.Intn(3)
@@ -108,9 +109,9 @@ func runHammer(wl Workload) Stress {
 				v := int64((w+1)*100000 + i)
 				pr.guard(func() {
 					if w == 0 {
-						leaf.Update(v)
+						leaf.Update(mkval(v))
 					} else {
-						t.Add(p, v)
+						t.Add(p, mkval(v))
 					}
 				})
 				atomic.StoreInt64(&last[w], v)
@@ -134,6 +135,7 @@ func runHammer(wl Workload) Stress {
 }
 
 func runAPI(wl Workload) Stress {
+	boxed = wl.Box
 	r := vh.NewRand(wl.Seed)
 	t := &ctree.Tree{}
 	n := wl.Windows
@@ -162,14 +164,14 @@ func runAPI(wl Workload) Stress {
 				}
 				pr.guard(func() {
 					visit := func(path []string, _ *ctree.Leaf, val interface{}) error {
-						if _, ok := val.(int64); !ok {
+						if _, ok := unval(val); !ok {
 							panic(fmt.Sprintf("visited a non-value %T", val))
 						}
 						return nil
 					}
 					switch k {
 					case 0:
-						t.Add(lp, v)
+						t.Add(lp, mkval(v))
 					case 1:
 						t.GetLeafValue(lp)
 					case 2:
@@ -195,14 +197,14 @@ func runAPI(wl Workload) Stress {
 					case 8:
 						t.Delete(dp)
 					case 9:
-						t.DeleteConditional(dp, func(x interface{}) bool { y, ok := x.(int64); return ok && y < 5 })
+						t.DeleteConditional(dp, func(x interface{}) bool { y, ok := unval(x); return ok && y < 5 })
 					case 10:
-						t.WalkDeleted(dp, func(x interface{}) bool { y, ok := x.(int64); return ok && y >= 5 }, func(interface{}) {})
+						t.WalkDeleted(dp, func(x interface{}) bool { y, ok := unval(x); return ok && y >= 5 }, func(interface{}) {})
 					case 11:
 						// handles to leaves only (KF-C09-1)
 						if l := t.GetLeaf(lp); l != nil {
-							if _, ok := l.Value().(int64); ok {
-								l.Update(v)
+							if _, ok := unval(l.Value()); ok {
+								l.Update(mkval(v))
 							}
 						}
 					case 14:
@@ -260,6 +262,6 @@ func runAPI(wl Workload) Stress {
 
 func alienLeaf() *ctree.Tree {
 	n := &ctree.Tree{}
-	n.Add(nil, int64(4242))
+	n.Add(nil, mkval(4242))
 	return n
 }
